@@ -37,6 +37,23 @@ Qed.
 Lemma terminal_kind : forall rid m, is_terminal rid m = true -> kind_terminal (m_kind m) = true.
 Proof. unfold is_terminal. intros. apply andb_prop in H. tauto. Qed.
 
+(** [resolves] (Model/SseLegacy.v): inside the theorems' environment - what bears the request's key on the stream is its
+    answer - it is [same_key], whatever [c_answers_only] says. *)
+Lemma resolves_not_key : forall c i m, same_key i m = false -> resolves c i m = false.
+Proof. intros c i m H. unfold resolves. now rewrite H. Qed.
+
+Lemma resolves_terminal : forall c i m, is_terminal i m = true -> resolves c i m = true.
+Proof.
+  intros c i m H. unfold resolves. rewrite (terminal_same_key _ _ H). apply terminal_kind in H.
+  destruct (m_kind m); try discriminate; simpl; now rewrite andb_false_r.
+Qed.
+
+Lemma resolves_answer : forall c i m, kind_terminal (m_kind m) = true -> same_key i m = true -> resolves c i m = true.
+Proof.
+  intros c i m Hk Hs. unfold resolves. rewrite Hs.
+  destruct (m_kind m); try discriminate; simpl; now rewrite andb_false_r.
+Qed.
+
 Lemma count_app : forall rid a b, count_terminals rid (a ++ b) = (count_terminals rid a + count_terminals rid b)%nat.
 Proof. intros. unfold count_terminals. rewrite filter_app, app_length. auto. Qed.
 
@@ -490,9 +507,9 @@ Proof.
       destruct (is_terminal rid m) eqn:Et; [|discriminate].
       destruct ans; [discriminate|]. simpl in Hst.
       destruct ph; inversion Hst; subst s'; clear Hst; cbn [step s_task s_late].
-      * subst task. rewrite Esk. unfold rel, resolved_out. cbn [fst snd s_task owed].
+      * subst task. rewrite (resolves_terminal c _ _ Et). unfold rel, resolved_out. cbn [fst snd s_task owed].
         split; [split; eauto|]. destruct (c_route_in_stream c); [rewrite one_msg_count, Et|]; auto.
-      * subst task. rewrite Esk. unfold rel, resolved_out. cbn [fst snd s_task owed].
+      * subst task. rewrite (resolves_terminal c _ _ Et). unfold rel, resolved_out. cbn [fst snd s_task owed].
         split; [split; eauto|]. destruct (c_route_in_stream c); [rewrite one_msg_count, Et|]; auto.
       * (* late: dropped *)
         destruct Hrel as [Ht Hl]. subst task.
@@ -510,9 +527,9 @@ Proof.
       assert (G : fst (step c (SS task late) (ESse (Some m))) = fst (not_pending c (SS task late) m) /\
                   snd (step c (SS task late) (ESse (Some m))) = snd (not_pending c (SS task late) m)).
       { cbn [step s_task s_late]. destruct ph; cbn [fst] in Hrel.
-        - subst task. rewrite Esk. auto.
+        - subst task. rewrite (resolves_not_key c _ _ Esk). auto.
         - destruct Hrel as [_ [a [Ht _]]]. subst task. auto.
-        - subst task. rewrite Esk. auto.
+        - subst task. rewrite (resolves_not_key c _ _ Esk). auto.
         - destruct Hrel as [_ [a [Ht _]]]. subst task. auto.
         - destruct Hrel as [Ht _]. subst task. auto. }
       destruct G as [G1 G2]. rewrite G1, G2, N2. split; [|lia].
@@ -697,9 +714,9 @@ Proof.
     + destruct task; simpl; try apply IH; destruct (c_route_in_stream c); simpl; apply IH.
     + destruct task; simpl; try apply IH; destruct (c_route_in_stream c); simpl; apply IH.
     + destruct task; try (apply not_pending_subseq; apply IH).
-      * destruct (same_key i m); [|apply not_pending_subseq; apply IH].
+      * destruct (resolves c i m); [|apply not_pending_subseq; apply IH].
         unfold resolved_out. destruct (c_route_in_stream c); simpl; [apply SubTake|apply SubSkip]; apply IH.
-      * destruct (same_key i m); [|apply not_pending_subseq; apply IH].
+      * destruct (resolves c i m); [|apply not_pending_subseq; apply IH].
         unfold resolved_out. destruct (c_route_in_stream c); simpl; [apply SubTake|apply SubSkip]; apply IH.
     + simpl. apply IH.
 Qed.
@@ -777,7 +794,7 @@ Proof.
   - left. destruct task; keys_fin H.
   - left. destruct task; try destruct (c_route_in_stream c); keys_fin H.
   - left. destruct task; keys_fin H.
-  - left. destruct task; try destruct (same_key i m); keys_fin H.
+  - left. destruct task; try destruct (resolves c i m); keys_fin H.
   - left. exact H.
 Qed.
 
@@ -824,9 +841,9 @@ Proof.
     { apply not_pending_routes. intros k Hk. apply (H m k Hin Hk). }
     destruct task; try (rewrite Hnp; reflexivity).
     + assert (E : same_key i m = false) by (apply (H m (key i) Hin); unfold st_keys; simpl; auto).
-      rewrite E, Hnp. reflexivity.
+      rewrite (resolves_not_key c _ _ E), Hnp. reflexivity.
     + assert (E : same_key i m = false) by (apply (H m (key i) Hin); unfold st_keys; simpl; auto).
-      rewrite E, Hnp. reflexivity.
+      rewrite (resolves_not_key c _ _ E), Hnp. reflexivity.
   - simpl. auto.
 Qed.
 
@@ -919,8 +936,8 @@ Proof.
     + destruct (is_terminal rid m) eqn:Et; [|discriminate]. destruct ans; [discriminate|]. simpl in Hst.
       cbn [step s_task s_late].
       destruct ph; try discriminate; cbn [fst] in Hrel; cbn [andb is_done].
-      * subst task. rewrite Esk. unfold resolved_out. rewrite Hb. auto.
-      * subst task. rewrite Esk. unfold resolved_out. rewrite Hb. auto.
+      * subst task. rewrite (resolves_terminal c _ _ Et). unfold resolved_out. rewrite Hb. auto.
+      * subst task. rewrite (resolves_terminal c _ _ Et). unfold resolved_out. rewrite Hb. auto.
       * destruct Hrel as [Ht Hh]. subst task. specialize (Hh eq_refl Hd).
         assert (Hhit : late_hit c late m = true).
         { unfold late_hit. rewrite Hd, (terminal_kind _ _ Et). simpl.
@@ -935,9 +952,9 @@ Proof.
       assert (G : step c (SS task late) (ESse (Some m)) = (SS task late, [(FromSse, m)])).
       { cbn [step s_task s_late]. unfold not_pending. cbn [s_late]. rewrite Hmiss.
         destruct ph; cbn [fst] in Hrel.
-        - subst task. rewrite Esk. auto.
+        - subst task. rewrite (resolves_not_key c _ _ Esk). auto.
         - destruct Hrel as [_ [a [Ht _]]]. subst task. auto.
-        - subst task. rewrite Esk. auto.
+        - subst task. rewrite (resolves_not_key c _ _ Esk). auto.
         - destruct Hrel as [_ [a [Ht _]]]. subst task. auto.
         - destruct Hrel as [Ht _]. subst task. auto. }
       rewrite G. auto.
@@ -1085,6 +1102,27 @@ Proof.
 Qed.
 
 (* ------------------------------------------------------------------ *)
+(** * Requests of the server's own (ecb7629)                           *)
+(* ------------------------------------------------------------------ *)
+(** With [c_answers_only], a message that has a method - a request or a
+    notification of the server - is routed to the read stream at its place and
+    leaves the request state exactly as it was, WHATEVER id it bears and
+    whatever the sender is doing: it is never taken for an answer and never
+    dropped as a late one. *)
+Lemma server_call_untouched : forall c st m,
+  c_answers_only c = true -> kind_call (m_kind m) = true ->
+  step c st (ESse (Some m)) = (st, [(FromSse, m)]).
+Proof.
+  intros c [task late] m Ha Hk. cbn [step s_task s_late].
+  assert (R : forall i, resolves c i m = false).
+  { intros i. unfold resolves. rewrite Ha, Hk. now rewrite andb_false_r. }
+  assert (N : not_pending c (SS task late) m = (SS task late, [(FromSse, m)])).
+  { unfold not_pending, late_hit. cbn [s_late].
+    destruct (m_kind m); try discriminate; cbn [kind_terminal]; now rewrite andb_false_r. }
+  destruct task; try rewrite R; exact N.
+Qed.
+
+(* ------------------------------------------------------------------ *)
 (** * Refutations                                                      *)
 (* ------------------------------------------------------------------ *)
 Definition w_rid := IdStr [114;49].                      (* "r1" *)
@@ -1101,9 +1139,9 @@ Definition w_overtaken : list ev := [EPost (PStatus 202 BNotJson); ESse (Some w_
 Lemma one_terminal_refuted : forall c, c_drop_late c = false -> ~ one_terminal_statement c.
 Proof.
   intros c Hd H. destruct (H w_rid w_late [] eq_refl) as [H1 _]. clear H.
-  destruct c as [f1 f2 f3 f4 f5 f6 f7]. simpl in Hd. subst f6.
+  destruct c as [f1 f2 f3 f4 f5 f6 f7 f8]. simpl in Hd. subst f6.
   unfold count_terminals in H1.
-  destruct f1, f2, f3, f4, f5, f7; vm_compute in H1; discriminate.
+  destruct f1, f2, f3, f4, f5, f7, f8; vm_compute in H1; discriminate.
 Qed.
 
 (** Full-strength ordering: not met by any member that hands the answer to the
@@ -1111,16 +1149,16 @@ Qed.
 Lemma in_order_refuted : forall c, c_route_in_stream c = false -> ~ in_order_statement c.
 Proof.
   intros c Hb H. specialize (H w_rid w_overtaken eq_refl).
-  destruct c as [f1 f2 f3 f4 f5 f6 f7]. simpl in Hb. subst f7.
-  destruct f1, f2, f3, f4, f5, f6; vm_compute in H; discriminate.
+  destruct c as [f1 f2 f3 f4 f5 f6 f7 f8]. simpl in Hb. subst f7.
+  destruct f1, f2, f3, f4, f5, f6, f8; vm_compute in H; discriminate.
 Qed.
 
 (** ... nor by one that delivers the late answer. *)
 Lemma in_order_refuted_late : forall c, c_drop_late c = false -> ~ in_order_statement c.
 Proof.
   intros c Hd H. specialize (H w_rid w_late eq_refl).
-  destruct c as [f1 f2 f3 f4 f5 f6 f7]. simpl in Hd. subst f6.
-  destruct f1, f2, f3, f4, f5, f7; vm_compute in H; discriminate.
+  destruct c as [f1 f2 f3 f4 f5 f6 f7 f8]. simpl in Hd. subst f6.
+  destruct f1, f2, f3, f4, f5, f7, f8; vm_compute in H; discriminate.
 Qed.
 
 (** /repo HEAD (the five earlier repairs in, the two proposed ones not): the
